@@ -251,7 +251,11 @@ def grid_desc(draw):
     dlat = draw(st.sampled_from([0.25, 0.5, 1.0, 2.5]))
     dlon = draw(st.sampled_from([0.25, 0.5, 1.0, 2.5]))
     lat0 = draw(st.integers(-340, 340 - int(4 * dlat * (nlat - 1)))) / 4.0
-    lon0 = draw(st.integers(-720, 716 - int(4 * dlon * (nlon - 1)))) / 4.0
+    if draw(st.integers(0, 3)) == 0:
+        # files in the 0..360 longitude convention (native ERA5 layout): queries use the file's own coordinate values
+        lon0 = draw(st.integers(0, 1436 - int(4 * dlon * (nlon - 1)))) / 4.0
+    else:
+        lon0 = draw(st.integers(-720, 716 - int(4 * dlon * (nlon - 1)))) / 4.0
     return {'levels': levels, 'lat0': lat0, 'dlat': dlat, 'nlat': nlat, 'lat_desc': draw(st.integers(0, 3)) > 0,
             'lon0': lon0, 'dlon': dlon, 'nlon': nlon}
 
